@@ -623,7 +623,7 @@ class Pilot(object):
             # we will never see another state progression.  Raise an error
             # (unless we waited for this)
             if self.state in states:
-                return
+                return self.state
 
             # FIXME: do we want a raise here, really?  This introduces a race,
             #        really, on application level
@@ -631,7 +631,8 @@ class Pilot(object):
             return self.state
 
         start_wait = time.time()
-        while self.state not in states:
+        while self.state not in states and \
+              self.state not in rps.FINAL:
 
             time.sleep(0.1)
             if timeout and (timeout <= (time.time() - start_wait)):
